@@ -41,6 +41,7 @@ def run(chk: Check) -> None:
     run_status(chk, ix)
     run_change_detection(chk, ix)
     run_traverser_children(chk, ix)
+    run_checker_caches(chk, ix)
 
     r1 = chk.rule("R03.1", "reprocess_nodes performs snapshot < clear < strip < analyse < merge < check < snapshot < compare < update_deps on every normal path, returns the compared triggers, and the propagation loop re-queues error targets and resets protocol caches first", floor=12)
     rp = ix.func("mypy.server.update.reprocess_nodes")
@@ -155,6 +156,25 @@ def run(chk: Check) -> None:
                 r2.ok(key, m.loc())
             else:
                 r2.violation(key, m.loc(), f"{c.name}.__eq__ distinguishes values by `{a}` but the snapshot ignores it: a change of `{a}` alone fires no trigger and dependants keep stale results")
+
+        # each distinguishing field keeps its own component: no lossy combination of two of them
+        pname = [a.arg for a in m.params][1] if len(m.params) > 1 else None
+        for e in ast.walk(m.node):
+            if isinstance(e, (ast.BoolOp, ast.IfExp)) or (isinstance(e, ast.BinOp) and not isinstance(e.op, ast.Add)):
+                if isinstance(e, ast.IfExp):
+                    parts = [e.body, e.orelse]
+                elif isinstance(e, ast.BoolOp):
+                    parts = e.values
+                else:
+                    parts = [e.left, e.right]
+                used = []
+                for p_ in parts:
+                    u = {x.attr for x in ast.walk(p_) if isinstance(x, ast.Attribute) and isinstance(x.value, ast.Name) and x.value.id == pname and x.attr in eq}
+                    used.append(u)
+                distinct = [u for u in used if u]
+                if len(distinct) >= 2 and len(set().union(*distinct)) >= 2 and not any(distinct[i] & distinct[j] for i in range(len(distinct)) for j in range(i + 1, len(distinct))):
+                    flds = sorted(set().union(*distinct))
+                    r2.violation(f"SnapshotTypeVisitor.{vm}: {c.name}.{flds[0]} and {c.name}.{flds[1]} keep separate snapshot components", m.loc(e), f"`{norm(e)[:80]}` folds the distinguishing fields {flds} into one component: two {c.name} values that differ only in which of them is set get equal snapshots, so the edit fires no trigger")
 
     # ---------------- R03.3
     r3 = chk.rule("R03.3", "component-coverage matrix: TypeReplaceVisitor (astmerge), TypeTriggersVisitor (deps) and SnapshotTypeVisitor (astdiff) reach every type-valued field of every Type subclass", floor=80)
@@ -393,3 +413,65 @@ def run_traverser_children(chk: Check, ix) -> None:
                     r7.violation(key, trav.methods[vm].loc(), f"`{fld}: {t}` is a child of {cn} that the generic traversal never visits: names used inside it get no fine-grained dependencies, are not stripped before re-analysis and are not merged")
     if n_classes < 70:
         raise AnalysisError(f"only {n_classes} node classes matched with TraverserVisitor methods")
+
+
+def run_checker_caches(chk: Check, ix) -> None:
+    """R03.8: what the type checker caches on syntax nodes under a condition is reset before a target is re-processed."""
+    from ..resolve import Resolver, members
+    r8 = chk.rule("R03.8", "an attribute of an expression or statement node that the type checker assigns only under a condition (a cache that is filled when there is something to cache and never cleared) is reset by NodeStripVisitor before the target is re-analysed; otherwise the value computed for the previous version of the program survives an edit in the daemon", floor=2)
+    R = Resolver(ix)
+    syntax = {q for q, c in ix.classes.items() if c.module.name in ("mypy.nodes", "mypy.patterns") and (c.is_subclass_of("mypy.nodes.Expression") or c.is_subclass_of("mypy.nodes.Statement")) and not c.is_subclass_of("mypy.nodes.SymbolNode")}
+    strip = ix.cls("mypy.server.aststrip.NodeStripVisitor")
+    reset = set()
+    for m in strip.methods.values():
+        for a in ast.walk(m.node):
+            if isinstance(a, (ast.Assign, ast.AnnAssign)):
+                for t in (a.targets if isinstance(a, ast.Assign) else [a.target]):
+                    if isinstance(t, ast.Attribute):
+                        reset.add(t.attr)
+    POS = {"line", "column", "end_line", "end_column"}
+    sites: dict[str, list] = {}
+    for q, f in sorted(ix.functions.items()):
+        if f.parent is not None or f.module.name not in ("mypy.checker", "mypy.checkexpr", "mypy.checkmember", "mypy.checkpattern"):
+            continue
+        env = None
+        par = None
+        for n in ast.walk(f.node):
+            if not isinstance(n, (ast.Assign, ast.AnnAssign)):
+                continue
+            for t in (n.targets if isinstance(n, ast.Assign) else [n.target]):
+                if not (isinstance(t, ast.Attribute) and not (isinstance(t.value, ast.Name) and t.value.id == "self") and t.attr not in POS):
+                    continue
+                if env is None:
+                    env = R.env(f)
+                    par = f.module.parents()
+                ty = R.type_of(t.value, f, env)
+                cl = {x[1] for x in members(ty) if x[0] == "cls"}
+                if not (cl and cl <= syntax | {"mypy.nodes.Expression", "mypy.nodes.Statement", "mypy.nodes.RefExpr"} and cl & (syntax | {"mypy.nodes.Expression", "mypy.nodes.RefExpr"})):
+                    continue
+                # freshly created nodes (synthetic) are not caches
+                if isinstance(t.value, ast.Name) and any(isinstance(a2, ast.Assign) and norm(a2.targets[0]) == t.value.id and isinstance(a2.value, ast.Call) and isinstance(a2.value.func, ast.Name) and a2.value.func.id[:1].isupper() for a2 in ast.walk(f.node)):
+                    continue
+                # conditional on a test of the very value being stored (`if v is not None: node.a = v`)
+                p_ = par.get(n)
+                cond = None
+                while p_ is not None and p_ is not f.node:
+                    if isinstance(p_, ast.If) and any(n is x for x in p_.body) and n.value is not None and norm(n.value) in norm(p_.test):
+                        cond = p_
+                        break
+                    p_ = par.get(p_)
+                sites.setdefault(t.attr, []).append((f, n, cond))
+    n_found = 0
+    for attr, lst in sorted(sites.items()):
+        conditional = [x for x in lst if x[2] is not None]
+        if not conditional or len(conditional) != len(lst):
+            continue  # some site stores the value unconditionally: re-checking overwrites it
+        n_found += 1
+        f, n, cond = conditional[0]
+        key = f"node attribute `{attr}` cached by {f.name} only when set: reset by aststrip"
+        if attr in reset:
+            r8.ok(key, f.loc(n))
+        else:
+            r8.violation(key, f.loc(n), f"`{norm(n.targets[0]) if isinstance(n, ast.Assign) else norm(n.target)}` is stored only under `{norm(cond.test)[:60]}` and NodeStripVisitor never resets `{attr}`: after an edit that removes the property (e.g. TypeGuard changed to TypeIs) the daemon keeps using the old value in re-processed targets")
+    if n_found < 2:
+        raise AnalysisError(f"only {n_found} conditionally cached node attributes found in the checker")
